@@ -99,11 +99,32 @@ func TestC09(t *testing.T) {
 	}
 	defer os.RemoveAll(osRoot)
 	thorough := ev.Thorough()
+	// violations are collected per signature; the simplest case (lowest rank) becomes the stored replay
+	type kept struct {
+		replay any
+		rank   int64
+		n      int64
+	}
 	var vmu sync.Mutex
-	viol := func(sig string, replay any) {
+	found := map[string]*kept{}
+	viol := func(sig string, replay any, rank int64) {
 		vmu.Lock()
 		defer vmu.Unlock()
-		rep.Violation(sig, replay)
+		k := found[sig]
+		if k == nil {
+			found[sig] = &kept{replay, rank, 1}
+			return
+		}
+		k.n++
+		if rank < k.rank {
+			k.replay, k.rank = replay, rank
+		}
+	}
+	finish := func() {
+		for sig, k := range found {
+			rep.ViolationN(sig, k.replay, k.n)
+		}
+		rep.Finish()
 	}
 
 	scs := scenarios()
@@ -118,7 +139,7 @@ func TestC09(t *testing.T) {
 		rep.Coverage["distinct_nontrivial"] = 2
 		rep.Coverage["rule"] = "replay of one stored case"
 		rep.Coverage["samples"] = []any{path}
-		rep.Finish()
+		finish()
 		return
 	}
 
@@ -137,7 +158,7 @@ func TestC09(t *testing.T) {
 		r := runHelper(c)
 		cl, _ := judge(c, r)
 		for _, x := range cl {
-			viol(c.sig(x), map[string]any{"part": "a", "case": c, "panic": r.panicked, "got_err": fmt.Sprint(r.err)})
+			viol(c.sig(x), map[string]any{"part": "a", "case": c, "panic": r.panicked, "got_err": fmt.Sprint(r.err)}, 1<<40)
 		}
 		aEvals.Add(1)
 	}
@@ -255,7 +276,7 @@ func TestC09(t *testing.T) {
 			bmu.Unlock()
 			for _, cl := range judgeRun(c.sc, spec, r, c.N) {
 				viol("b:"+c.sc.Name+":"+cl, map[string]any{"part": "b", "run": spec, "got_kind": kindName(r.err), "got_err": fmt.Sprint(r.err),
-					"backend_operations": r.total, "mutating_operations": r.mutating, "tree_before": head(r.before, 40), "tree_after": head(r.afterDmp, 40)})
+					"backend_operations": r.total, "mutating_operations": r.mutating, "tree_before": head(r.before, 40), "tree_after": head(r.afterDmp, 40)}, spec.rank())
 			}
 		}
 	})
@@ -347,7 +368,7 @@ func TestC09(t *testing.T) {
 		bmu.Unlock()
 		for _, cl := range judgeRun(j.c.sc, j.spec, r, j.c.N) {
 			viol("b:"+j.c.sc.Name+":"+cl, map[string]any{"part": "b", "run": j.spec, "length_of_uncancelled_run": j.c.N, "got_kind": kindName(r.err), "got_err": fmt.Sprint(r.err),
-				"operations": r.total, "further_operations": r.after, "further_mutating": r.afterMut, "B": j.c.sc.B, "M": j.c.sc.M, "operations_after_the_context_ended": r.afterOps})
+				"operations": r.total, "further_operations": r.after, "further_mutating": r.afterMut, "B": j.c.sc.B, "M": j.c.sc.M, "operations_after_the_context_ended": r.afterOps}, j.spec.rank())
 		}
 	})
 
@@ -407,7 +428,7 @@ func TestC09(t *testing.T) {
 		"a deadline expiring mid-run is represented by a harness context whose Err() is context.DeadlineExceeded (no wall clock)",
 		"OS backend = tmpfs of this sandbox",
 	}
-	rep.Finish()
+	finish()
 }
 
 func head(s string, lines int) string {
@@ -449,7 +470,7 @@ func runReplay(rep *ev.Reporter, path string, byName map[string]*scenario, viol 
 		clauses, outcome := judge(*part.Case, r)
 		fmt.Printf("REPLAY part=a case=%+v delivered=%d n=%d err=%v kind=%s panic=%q reads=%d writes=%d outcome=%s clauses=%v\n", *part.Case, len(r.out), r.n, r.err, kindName(r.err), r.panicked, r.e.reads, r.e.writes, outcome, clauses)
 		for _, cl := range clauses {
-			viol(part.Case.sig(cl), map[string]any{"part": "a", "case": part.Case})
+			viol(part.Case.sig(cl), map[string]any{"part": "a", "case": part.Case}, 0)
 		}
 	case "a-file":
 		fileLimitCases(viol)
@@ -476,7 +497,7 @@ func runReplay(rep *ev.Reporter, path string, byName map[string]*scenario, viol 
 			fmt.Println("  after the context ended:", op)
 		}
 		for _, cl := range clauses {
-			viol("b:"+sc.Name+":"+cl, map[string]any{"part": "b", "run": part.Run})
+			viol("b:"+sc.Name+":"+cl, map[string]any{"part": "b", "run": part.Run}, 0)
 		}
 	default:
 		rep.EngineError("unknown replay part %q", part.Part)
